@@ -16,7 +16,11 @@
    panic whose payload is a *CompilationPanic (recovered by CompileQueue and
    returned as an ordinary error = a compile error for load()) and any other
    payload (strings: re-panicked by CompileQueue; nothing above recovers it,
-   so it escapes load, pcall and runtime.Call). *)
+   so it escapes load, pcall and runtime.Call).
+
+   This file follows the code AFTER the repairs of round 2 (every field limit
+   raises a *CompilationPanic; ProcessCode rejects a function of more than
+   32767 opcodes, which is what keeps jump offsets and the int16 pc exact). *)
 From Coq Require Import ZArith Bool List.
 From GV Require Import VM.Opcode.
 Import ListNotations.
@@ -53,30 +57,36 @@ Definition Index8FromInt (n : Z) : raw Z :=
   if (n <? 0) || (n >? 255) then RPanicStr else ROk n.
 
 (* ---------------------------------------------------------------- instruction compilers *)
+(* ircomp.kIndex: range check raising a *CompilationPanic, then code.KIndexFromInt *)
+Definition kIndex (i : Z) : raw Z :=
+  if (i <? 0) || (i >? 65535) then RPanicComp       (* "too many constants" *)
+  else KIndexFromInt i.
 Definition compLoadConst (dst : reg) (ckidx : Z) : raw outcome :=
-  match KIndexFromInt ckidx with
+  match kIndex ckidx with
   | ROk k => ROk (Encoded (LoadConst dst k))
-  | _ => RPanicStr
+  | RPanicComp => RPanicComp
+  | RPanicStr => RPanicStr
   end.
 Definition compMkClosure (dst : reg) (ckidx : Z) : raw outcome :=
-  match KIndexFromInt ckidx with
+  match kIndex ckidx with
   | ROk k => ROk (Encoded (LoadClosure dst k))
-  | _ => RPanicStr
+  | RPanicComp => RPanicComp
+  | RPanicStr => RPanicStr
   end.
 Definition compEtcLookup (dst etc : reg) (idx : Z) : raw outcome :=
-  if (idx <? 0) || (idx >=? 256) then RPanicStr      (* "Etc lookup index out of range" *)
+  if (idx <? 0) || (idx >=? 256) then RPanicComp     (* "too many values in a multiple assignment" *)
   else match Index8FromInt idx with
        | ROk i => ROk (Encoded (LoadEtcLookup dst etc i))
        | _ => RPanicStr
        end.
 Definition compFillTable (dst etc : reg) (idx : Z) : raw outcome :=
-  if (idx <? 0) || (idx >=? 256) then RPanicStr      (* "Fill table index out of range" *)
+  if (idx <? 0) || (idx >=? 256) then RPanicComp     (* "too many items before a multiple-value expression ..." *)
   else match Index8FromInt idx with
        | ROk i => ROk (Encoded (FillTable dst etc i))
        | _ => RPanicStr
        end.
 Definition compClTrunc (h : Z) : raw outcome :=
-  if (h <? 0) || (h >=? 65536) then RPanicStr        (* "close stack height out of range" *)
+  if (h <? 0) || (h >=? 65536) then RPanicComp       (* "too many pending to-be-closed variables" *)
   else ROk (Encoded (ClTrunc (u16 h))).
 
 (* Builder.EmitJump (label already known) / EmitLabel (fix-up of an earlier jump):
@@ -85,6 +95,13 @@ Definition fixup (opcode from to : Z) : raw outcome :=
   let d := to - from in
   let o := s16 d in
   if o =? d then ROk (Encoded (SetOffset opcode o)) else ROk (Truncated (SetOffset opcode o)).
+
+(* ConstantCompiler.ProcessCode: a function whose code has more than maxCodeSize opcodes is
+   rejected (after its instructions were emitted, so after the fix-ups above) *)
+Definition maxCodeSize : Z := 32767.
+Definition compJump (opcode from to len : Z) : raw outcome :=
+  let r := fixup opcode from to in
+  if len >? maxCodeSize then RPanicComp (* "function too large" *) else r.
 
 (* LuaCont.RunInThread: pc int16 *)
 Definition pc_next (pc : Z) : Z := s16 (pc + 1).
@@ -202,7 +219,7 @@ Inductive request :=
 | ReqEtcLookup (dst etc : reg) (i : Z)         (* i-th value of a vararg / multiple results *)
 | ReqFillTable (dst etc : reg) (i : Z)         (* table constructor: multi-value tail starting at index i *)
 | ReqClTrunc (h : Z)                           (* close-stack height h *)
-| ReqJump (opcode from to : Z).                (* jump emitted at address from to a label at address to *)
+| ReqJump (opcode from to len : Z).            (* jump at address from to a label at address to, in a function of len opcodes *)
 
 Definition all_busy (regs : list Z) : bool := forallb (fun c => negb (c =? 0)) regs.
 
@@ -213,7 +230,7 @@ Definition in_range (r : request) : bool :=
   | ReqConst _ i | ReqClosure _ i => (0 <=? i) && (i <=? 65535)
   | ReqEtcLookup _ _ i | ReqFillTable _ _ i => (0 <=? i) && (i <=? 255)
   | ReqClTrunc h => (0 <=? h) && (h <=? 65535)
-  | ReqJump _ from to => (- 2^15 <=? to - from) && (to - from <? 2^15)
+  | ReqJump _ _ _ len => len <=? maxCodeSize
   end.
 
 Definition compile (r : request) : outcome :=
@@ -230,8 +247,8 @@ Definition compile (r : request) : outcome :=
     | ReqEtcLookup dst etc i => compEtcLookup dst etc i
     | ReqFillTable dst etc i => compFillTable dst etc i
     | ReqClTrunc h => compClTrunc h
-    | ReqJump opcode from to => fixup opcode from to
+    | ReqJump opcode from to len => compJump opcode from to len
     end.
 
 Definition is_reg_request (r : request) : bool := match r with ReqReg _ => true | _ => false end.
-Definition is_jump_request (r : request) : bool := match r with ReqJump _ _ _ => true | _ => false end.
+Definition is_jump_request (r : request) : bool := match r with ReqJump _ _ _ _ => true | _ => false end.
